@@ -589,7 +589,7 @@ modifiers = (
     html_quote, url_quote, url_quote_plus, url_unquote,
     url_unquote_plus, newline_to_br,
     lower, upper, capitalize, spacify,
-    thousands_commas, sql_quote, url_unquote, url_unquote_plus,
+    thousands_commas, sql_quote,
 )
 modifiers = list(map(lambda f: (f.__name__, f), modifiers))
 
